@@ -298,3 +298,27 @@ Proof.
   match goal with H : Bool.eqb _ _ = true |- _ => apply Bool.eqb_prop in H; rewrite H end.
   replace (Z.land o 127) with t by lia. reflexivity.
 Qed.
+
+(* ---------- the subpacket length field on its own (Fmt.FSubLen) ---------- *)
+Lemma sub_header_emit_sub_length len typeid critical :
+  sub_header_emit len typeid critical = sub_length len ++ int_to_bytes (Z.shiftl (if critical then 1 else 0) 7 + typeid) 1.
+Proof. reflexivity. Qed.
+Lemma sub_length_new_length n : sub_length n = new_length n.
+Proof. reflexivity. Qed.
+
+(* unlike sub_header_roundtrip, nothing is asked of the following data *)
+Theorem sub_len_roundtrip n r : 0 <= n < 4294967296 -> sub_len (sub_length n ++ r) = Some (n, r).
+Proof.
+  intros H. rewrite sub_length_new_length.
+  destruct (Z_lt_ge_dec n 192) as [C1|C1].
+  { pose proof (new_len_roundtrip n r H) as K. rewrite new_length_1 in * by lia. cbn [app] in *.
+    unfold sub_len. destruct ((192 <=? n) && (n <? 255)) eqn:E; [lia|exact K]. }
+  destruct (Z_lt_ge_dec n 8384) as [C2|C2].
+  { rewrite new_length_2 by lia. cbn [app]. unfold sub_len.
+    assert (B : 0 <= (n - 192) / 256 < 32) by (split; [apply Z.div_pos; lia|apply Z.div_lt_upper_bound; lia]).
+    destruct ((192 <=? (n - 192) / 256 + 192) && ((n - 192) / 256 + 192 <? 255)) eqn:E; [|lia].
+    rewrite Z.shiftl_mul_pow2 by lia. f_equal. f_equal.
+    pose proof (Z.div_mod (n - 192) 256 ltac:(lia)) as D. change (2 ^ 8) with 256. lia. }
+  pose proof (new_len_roundtrip n r H) as K. rewrite new_length_5 in * by lia. cbn [app] in *.
+  unfold sub_len. destruct ((192 <=? 255) && (255 <? 255)) eqn:E; [discriminate E|exact K].
+Qed.
